@@ -56,6 +56,16 @@ def scripts_for(pid, tier, seed, rep):
         # C01 is about commands and replies; every other of its random scripts also has events and listeners around them
         scripts.append(("random", cc.random_script(rng, ln, lose=(pid == "C03"), events=(pid != "C01" or i % 2 == 1))))
     if pid in ("C01", "C03"):
+        # the caller of a queued command gives up on it; the commands behind it go out and are answered all the same
+        for which in (2, 3):
+            sc = [dict(a="Submit", k="plain"), dict(a="Submit", k="plain"), dict(a="Submit", k="plain"), dict(a="Submit", k="cb"),
+                  dict(a="GiveUp", c=which)]
+            for cls in ("2", "2", "5", "2"):
+                sc += [dict(a="BeginReply", cls=cls, sh=["s"]), dict(a="Line")]
+            if pid == "C03":
+                sc = sc[:7] + [dict(a="Lose", clean=False, local=False), dict(a="Submit", k="plain")]
+            scripts.append(("giveup", [dict(x) for x in sc]))
+    if pid in ("C01", "C03"):
         # a command text outside ASCII among ordinary ones, then (C03) the connection is lost with everything unanswered
         for clean in (False, True):
             for k in (1, 2):
